@@ -77,7 +77,25 @@ OPC = {
     'hll': {'new': 0, 'fromregs': 1, 'addh': 2, 'add': 3, 'merge': 4, 'clear': 5, 'clone': 6, 'regs': 7, 'empty': 9},
     'cuckoo': {'new': 0, 'ins': 2, 'q': 3, 'union': 4, 'clear': 5, 'clone': 6, 'obs': 7, 'del': 8, 'dobs': 10},
     'qf': {'new': 0, 'ins': 2, 'q': 3, 'union': 4, 'clear': 5, 'clone': 6, 'obs': 7},
+    'res': {'new': 0, 'add': 2, 'clear': 5, 'clone': 6, 'obs': 7},
+    'lossy': {'add': 2, 'clear': 5, 'clone': 6, 'obs': 7},
+    'heap': {'new': 0, 'add': 2, 'clear': 5, 'clone': 6, 'iter': 7},
 }
+
+def f64_dyadic(bits):
+    """bits of a non-negative finite f64 -> (m, e) with value = m * 2^-e exactly"""
+    bits = int(bits)
+    exp, frac = (bits >> 52) & 0x7ff, bits & ((1 << 52) - 1)
+    assert bits >> 63 == 0 and exp != 0x7ff
+    if exp == 0:
+        m, e = frac, 1074
+    else:
+        m, e = frac | (1 << 52), 1075 - exp
+    if e < 0:
+        m, e = m << (-e), 0
+    while e > 0 and m % 2 == 0 and m:
+        m, e = m // 2, e - 1
+    return m, e
 
 def res_tokens(res):
     """result tokens -> expectation text; None for 'skipped' lines"""
@@ -113,6 +131,16 @@ def translate_ops(case, aux):
             aux.append((case, k, op, res))
             out.append((ol(0, [args[0], res[0], res[1]], [], 'S 0'), k))
             continue
+        if case.st == 'lossy' and res != ['panic']:
+            if name == 'new':
+                m, e = f64_dyadic(res[0])
+                out.append((ol(0, [args[0], args[1], m, e], [], 'S 0'), k)); continue
+            if name == 'neweps':
+                m, e = f64_dyadic(args[1])
+                out.append((ol(1, [args[0], m, e, res[0]], [], r), k)); continue
+            if name == 'query':
+                m, e = f64_dyadic(args[1])
+                out.append((ol(3, [args[0], m, e], [], r), k)); continue
         if name not in table:
             aux.append((case, k, op, res))
             continue
